@@ -359,6 +359,16 @@ fn spawn_on<'vm>(
     use crate::value::PartialApplicationDataDef;
 
     let WithVM { vm, value: action } = action;
+    // The action was built by the calling thread. `thread` may only hold it as it is when it can
+    // share values with the caller (it is the caller or one of its descendants); otherwise (an
+    // ancestor, a sibling) it needs its own copy, like any other value that crosses heaps.
+    let action = {
+        let action: crate::thread::RootedValue<&Thread> = vm.root_value(action.get_variant());
+        match action.re_root(thread.clone()) {
+            Ok(action) => action,
+            Err(err) => return IO::Exception(err.to_string()),
+        }
+    };
     let mut action = OwnedFunction::<Action<A>>::from_value(&thread, action.get_variant());
 
     let future = async move {
